@@ -4,12 +4,12 @@ CONSTANTS
   NW = 1
   NT = 3
   NG = 3
-  KCodes = {0, 10101, 10003, 30001, 150115, 151515, 20502, 10100, 301, 151500, 10203}
+  KCodes = {0, 10101, 10003, 30001, 150115, 151515, 20502, 10100, 151500}
   WIds = {5, 6}
   LMode = "mixed"
-  ECodes = {0, 1, 15}
-  TCodes = {111,123,321,212,313,331}
-  QuadIds = {1, 2}
+  ECodes = {0, 1}
+  TCodes = {111,123,321,212}
+  QuadIds = {2}
   ClampE = 15
   SlackE = 14
   Variant = "code"
